@@ -1,0 +1,57 @@
+//go:build verif
+
+// Package verifhook holds the instrumentation points used by the /verif
+// runtime monitors (build tag `verif`).
+package verifhook
+
+// Step counters of the logical watchdog. One analysis runs at a time, on
+// one goroutine, so plain integers are enough.
+var (
+	EOFReads  int64
+	Tokens    int64
+	BudgetEOF int64
+	BudgetTok int64
+	Serving   bool
+)
+
+// BudgetHit is the panic value raised when a step budget is exhausted.
+type BudgetHit struct{ Kind string }
+
+// ExitCalled is the panic value that replaces os.Exit in serve mode.
+type ExitCalled struct{ Code int }
+
+func ResetSteps(budgetEOF, budgetTok int64) {
+	EOFReads = 0
+	Tokens = 0
+	BudgetEOF = budgetEOF
+	BudgetTok = budgetTok
+}
+
+// EOFRead is called by the lexer reader whenever it is read at end of input.
+func EOFRead() {
+	EOFReads++
+	if BudgetEOF > 0 && EOFReads > BudgetEOF {
+		BudgetEOF = 0
+		BudgetTok = 0
+		panic(BudgetHit{Kind: "eof"})
+	}
+}
+
+// Token is called by the parser for every token fetch (including re-reads
+// of a pushed-back token).
+func Token() {
+	Tokens++
+	if BudgetTok > 0 && Tokens > BudgetTok {
+		BudgetEOF = 0
+		BudgetTok = 0
+		panic(BudgetHit{Kind: "tokens"})
+	}
+}
+
+// Exit is called right before the os.Exit calls that end a finished
+// analysis; in serve mode it unwinds to the driver instead.
+func Exit(code int) {
+	if Serving {
+		panic(ExitCalled{Code: code})
+	}
+}
